@@ -17,6 +17,10 @@ type scen struct {
 	st    *HStore
 	model map[string]*mval
 	keys  []string
+	// classification of read failures as a known finding (set by checkAllKnown)
+	knownID   string
+	knownCond bool
+	noVersion map[string]bool // keys whose version numbers are outside the oracle (colliding keys, C13)
 }
 
 // mval is the reference model's view of one key (statement of C01).
@@ -65,6 +69,10 @@ func (s *scen) open() {
 	st, err := NewHStore()
 	vrt.Assert("store-opens", err == nil)
 	s.st = st
+	// Bucket.open loads the hints of chunks below the tree dump's id in a background
+	// goroutine; the ordinary schedule is that it has finished before traffic arrives
+	vrt.Drain()
+	time.Sleep(30 * time.Millisecond)
 }
 
 func (s *scen) flush() { s.settle(); s.st.flushdatas(true) }
@@ -143,7 +151,7 @@ func (s *scen) del(key string) {
 		vrt.Assert("delete-of-live-key-ok", err == nil)
 		m.ver = -(m.ver + 1)
 		m.body = nil
-	} else {
+	} else if !s.noVersion[key] {
 		vrt.Assert("delete-of-absent-key-reports-not-found", err != nil)
 	}
 }
@@ -157,28 +165,55 @@ func (s *scen) check(key, where string) {
 	if err != nil {
 		vrt.Log("%s: get %s error: %v", where, key, err)
 	}
-	vrt.Assert(where+":get-no-error", err == nil)
+	if s.knownID != "" {
+		vrt.AssertKnown(where+":get-no-error", s.knownID, s.knownCond, err == nil)
+	} else {
+		vrt.Assert(where+":get-no-error", err == nil)
+	}
 	if err != nil {
 		return
 	}
 	if m.ver > 0 {
-		vrt.Assert(where+":live-key-found", p != nil)
+		if s.knownID != "" {
+			vrt.AssertKnown(where+":live-key-found", s.knownID, s.knownCond, p != nil)
+		} else {
+			vrt.Assert(where+":live-key-found", p != nil)
+		}
 		if p != nil {
 			rest := vrt.All(p.Flag == m.flag, len(p.Body) == len(m.body)) && vrt.BytesEq(p.Body, m.body)
-			vrt.AssertKnown(where+":read-equals-model(version,flags,value)", "F1", vrt.All(m.f1, rest), vrt.All(p.Ver == m.ver, rest))
+			if s.noVersion[key] {
+				if s.knownID != "" {
+					vrt.AssertKnown(where+":read-equals-model(flags,value)", s.knownID, s.knownCond, vrt.All(p.Ver > 0, rest))
+				} else {
+					vrt.Assert(where+":read-equals-model(flags,value)", vrt.All(p.Ver > 0, rest))
+				}
+			} else {
+				vrt.AssertKnown(where+":read-equals-model(version,flags,value)", "F1", vrt.All(m.f1, rest), vrt.All(p.Ver == m.ver, rest))
+			}
 			cmem.DBRL.GetData.SubSizeAndCount(p.CArray.Cap)
 			p.CArray.Free()
 		}
 	} else {
 		// deleted or never written: a get must not produce a live value
 		if p != nil {
-			vrt.AssertKnown(where+":deleted-key-reads-as-tombstone", "F1", m.f1, vrt.All(p.Ver < 0, vrt.Implies(m.ver < 0, p.Ver == m.ver)))
+			if s.noVersion[key] {
+				vrt.Assert(where+":deleted-key-not-live", p.Ver < 0)
+			} else {
+				vrt.AssertKnown(where+":deleted-key-reads-as-tombstone", "F1", m.f1, vrt.All(p.Ver < 0, vrt.Implies(m.ver < 0, p.Ver == m.ver)))
+			}
 			cmem.DBRL.GetData.SubSizeAndCount(p.CArray.Cap)
 			p.CArray.Free()
 		} else {
 			vrt.Reach(where + ":miss")
 		}
 	}
+}
+
+// checkAllKnown is checkAll where read failures are classified as known finding id when cond holds.
+func (s *scen) checkAllKnown(where, id string, cond bool) {
+	s.knownID, s.knownCond = id, cond
+	s.checkAll(where)
+	s.knownID, s.knownCond = "", false
 }
 
 func (s *scen) checkAll(where string) {
